@@ -217,8 +217,15 @@ class C03(XsProp):
                 n += 1
                 srcs = src_of(c)
                 # outputs: the copy printed pre+B, the original pre+A, and a second read of the copy is empty
-                if not (ou[-5].startswith('out:') and ou[-3].startswith('out:') and ou[-1] in ('out:-', 'out:')) or ou[-5] == ou[-3] or \
-                        len(ou[-5]) <= 4 or len(ou[-3]) <= 4:
+                oc = ou[-5][4:].replace('-', '')
+                oo = ou[-3][4:].replace('-', '')
+                k = 0
+                while k < min(len(oc), len(oo)) and oc[k] == oo[k]:
+                    k += 1
+                k -= k % 2
+                # after the common part (what was printed before the clone) each copy has its own, non-empty, different text, and
+                # a second read of the copy finds nothing
+                if not oc[k:] or not oo[k:] or k == 0 or ou[-1] not in ('out:-', 'out:'):
                     fails.append(('case: %s\nsources: %s\ncopy: %s\noriginal: %s\ncopy-again: %s' % (c, ' ;; '.join(srcs), ou[-5], ou[-3], ou[-1]),
                                   'captured output is shared between an interpreter and its clone'))
                 continue
